@@ -115,6 +115,7 @@ replace (
 	go.opentelemetry.io/collector/otelcol/otelcoltest => /repo/otelcol/otelcoltest
 	go.opentelemetry.io/collector/pdata => /repo/pdata
 	go.opentelemetry.io/collector/pdata/pprofile => /repo/pdata/pprofile
+	go.opentelemetry.io/collector/pdata/testdata => /repo/pdata/testdata
 	go.opentelemetry.io/collector/pipeline => /repo/pipeline
 	go.opentelemetry.io/collector/pipeline/xpipeline => /repo/pipeline/xpipeline
 	go.opentelemetry.io/collector/processor => /repo/processor
